@@ -389,25 +389,32 @@ def check_print_parse(st: Stats, batch) -> None:
         if ok:
             return
     for raw_thunk, e, ref in batch:
-        bad = _pp_bad(st, e, ref)
-        if bad is None:
+        report_pp(st, raw_thunk, e, ref)
+
+
+def report_pp(st: Stats, raw_thunk, e, ref, nd: int = 2, ns: int = 1) -> bool:
+    """Single-expression print -> parse check in a (nd dims, ns symbols) map; the signature names the smallest
+    sub-expression (library structure) that already fails to round-trip."""
+    bad = _pp_bad(st, e, ref, nd, ns)
+    if bad is None:
+        return True
+    culprit, cbad = e, bad
+    for sub in sub_exprs(e):
+        if sub is e:
+            break
+        sref = lib_vec(st, sub)
+        if sref is None:
             continue
-        culprit, cbad = e, bad
-        for sub in sub_exprs(e):
-            if sub is e:
-                break
-            sref = lib_vec(st, sub)
-            if sref is None:
-                continue
-            b = _pp_bad(Stats(), sub, sref)
-            if b is not None:
-                culprit, cbad = sub, b
-                break
-        raw = raw_thunk()
-        st.violate(f"C26|print-parse|{shape(culprit)}|{cbad[0]}",
-                   f"printing and re-parsing {culprit} does not preserve its value ({cbad[0]})",
-                   {"check": "print-parse", "tree": tolist(raw), "pretty": pretty(raw), "built": str(e),
-                    "minimal_subexpr": str(culprit), **cbad[1]})
+        b = _pp_bad(Stats(), sub, sref, nd, ns)
+        if b is not None:
+            culprit, cbad = sub, b
+            break
+    raw = raw_thunk()
+    st.violate(f"C26|print-parse|{shape(culprit)}|{cbad[0]}",
+               f"printing and re-parsing {culprit} does not preserve its value ({cbad[0]})",
+               {"check": "print-parse", "tree": tolist(raw), "pretty": pretty(raw), "built": str(e),
+                "minimal_subexpr": str(culprit), "num_dims": nd, "num_symbols": ns, **cbad[1]})
+    return False
 
 
 # ----------------------------------------------------------------------------- generator tree
@@ -1112,13 +1119,7 @@ def generate(ctx, cfg) -> dict:
         for nd, ns in ((2, 0), (3, 2), (2, 2)):
             if ns == 0 and raw_vars(raw_of(s)) & 4:
                 continue
-            bad = _pp_bad(st, s.expr, vec_of(s), nd, ns)
-            if bad is not None:
-                st.violate(f"C26|print-parse|{shape(s.expr)}|{bad[0]}",
-                           f"printing and re-parsing {s.expr} in a ({nd} dims, {ns} symbols) map does not preserve its value",
-                           {"check": "print-parse", "tree": tolist(raw_of(s)), "pretty": pretty(raw_of(s)), "built": str(s.expr),
-                            "num_dims": nd, "num_symbols": ns, **bad[1]})
-            else:
+            if report_pp(st, lambda s=s: raw_of(s), s.expr, vec_of(s), nd, ns):
                 st.outcomes[f"print-parse:space({nd},{ns}):ok"] += 1
     ctx.merge(st)
     # depth-1 div/mod states with divisor 2 or 3: extra right partners of level 3 (thorough)
@@ -1261,11 +1262,7 @@ def replay(rep) -> bool:
             if chk == "simplify":
                 check_simplify(st, raw, s.expr, ref)
             if chk == "print-parse":
-                check_print_parse(st, [(lambda: raw, s.expr, ref)])
-                if "num_dims" in w:           # found in a map space other than (2 dims, 1 symbol)
-                    bad = _pp_bad(st, s.expr, ref, w["num_dims"], w["num_symbols"])
-                    if bad is not None:
-                        st.violate(f"C26|print-parse|{shape(s.expr)}|{bad[0]}", "print-parse in another map space", {})
+                report_pp(st, lambda: raw, s.expr, ref, w.get("num_dims", 2), w.get("num_symbols", 1))
     elif chk == "compose":
         api = w["api"]
         if api == "AffineExpr.compose":
